@@ -45,6 +45,14 @@ CHECKS = {
             "exactly nx*ny*nz values equal to the DX tokens at %.5E in the same order.",
             "Trusted: the harness' DX writer follows the APBS layout; printed precision = the writer's own formats.",
             "DESIGN.md#c18"),
+    "C16": ("exploration", "postcondition and metamorphic monitors on the real Mol2Molecule (conservation, renaming, permutation up to colour-refinement classes, rigid motion, radius table) + differential whole runs with/without --ligand",
+            "Every molecule (local MOL2 files and random valence-legal molecules) is parameterised by the real code "
+            "as-is and after renaming / permuting / moving; conservation is checked against the code's own formal "
+            "charges at 1e-9*n, radii against tables copied from the cited papers. Complexes are run with and "
+            "without --ligand: ligand lines must be the ligand's atoms once each with the ligand's parameters, and "
+            "no other written atom may change.",
+            "Trusted: colour refinement gives classes that contain the true symmetry orbits (so the permutation "
+            "oracle is necessary, never stricter); radius tables as hard-coded in the harness.", "DESIGN.md#c16"),
 }
 
 NOT_APPLICABLE = {}
